@@ -323,6 +323,21 @@ def _gram_after_pivot(p, q):
              'anti(%s[%s], %s, N)' % (G0, p, obs), 'N >= 1'] + _subst_p(_gram_hints, p))
 
 
+def _swap_hints(K):
+    """ghost assertions after the row swaps that follow a rank reduction (`if extend:` is the K-th if of the function,
+    `if p == r` the (K+1)-th, `elif q == r` the (K+2)-th).  The tableau after the swaps is the tableau before them read through a
+    permutation that maps partner pairs to partner pairs; proved from the Gram structure before the swaps, nothing else."""
+    mid = "at('if%d.before', gs_stb)" % K
+    base = ['gram(%s, N)' % mid, 'q == (p + N if p < N else p - N)', '0 <= r < N', '0 <= p < 2 * N']
+    single = ('assert_from', 'gram(gs_stb, N)',
+              base + ['q == r', 'forall(i, 0, 2 * N, same(gs_stb[i], %s[q if i == p else (p if i == q else i)]))' % mid])
+    double = ('assert_from', 'gram(gs_stb, N)',
+              base + ['s == r + N', 'p != r', 'q != r',
+                      'forall(i, 0, 2 * N, same(gs_stb[i], %s[r if i == p else (p if i == r else (s if i == q else (q if i == s else i)))]))' % mid],
+              ['p < N', 'p >= N'])
+    return {'if%d.then.end' % (K + 2): [single], 'if%d.else.end' % (K + 2): [double]}
+
+
 def _subst_p(hints, name):
     out = []
     for h in hints:
@@ -339,20 +354,11 @@ CONTRACTS[U + 'stabilizer_project'] = dict(
     modifies=['gs_stb'], returns=('=gs_stb', 'int'),
     loops={0: dict(var='k', invariant=['rows(gs_stb) == 2 * N', 'cols(gs_stb) == 2 * N', 'bits2(gs_stb)', 'gram(gs_stb, N)',
                                        '0 <= r <= N', 'cols(gs_obs) == 2 * N', 'r <= old(r)'],
-                   # the swaps after a rank reduction only permute partner pairs: proved from the Gram structure before
-                   # the swaps (ghost assertion at `if extend:`) and the index arithmetic, nothing else
-                   hints_end=[
-                       # double swap (p,r) (q,s): the final tableau is the one before the swaps read through the
-                       # permutation (p r)(q s), which maps partner pairs to partner pairs
-                       ('assert_from', 'gram(gs_stb, N)',
-                        ["gram(at('if5.before', gs_stb), N)", 'q == (p + N if p < N else p - N)', 's == r + N', '0 <= r < N', 'p != r', 'q != r',
-                         "forall(i, 0, 2 * N, same(gs_stb[i], at('if5.before', gs_stb)[r if i == p else (p if i == r else (s if i == q else (q if i == s else i)))]))"],
-                        ['p < N', 'p >= N'], 'optional'),
-                       ('assert_from', 'gram(gs_stb, N)', ["gram(at('if5.before', gs_stb), N)"], ['p < N', 'p >= N'])]),
+                   ),
            1: dict(var='jj', invariant=_proj_inner)},
     # ghost code before `if extend:` (the 6th if of the function): after the pivot replacement the Gram structure holds
     # again (bilinearity instances for the rows that were multiplied by the pivot); the swaps then only permute pairs
-    hints={'if5.before': [_gram_after_pivot('p', 'q')]},
+    hints=dict({'if5.before': [_gram_after_pivot('p', 'q')]}, **_swap_hints(5)),
 )
 
 # ------------------------------------------------------------------ C05 / C06: the measurement kernel
@@ -395,6 +401,33 @@ _det_hints = [
     ('assert_from', 'forall(c, 0, 2 * N, ga[c] == %s[c])' % _obs,
      ['forall(c, 0, 2 * N, %s[c] == 0)' % _w, 'bits(ga, 2 * N)', 'bits(%s, 2 * N)' % _obs]),
 ]
+# C06, per observable, relative to the state at the start of its iteration (G0, P0, r0, lp0): these are the Born rule and the
+# projection postulate in algebraic form (the stabilizer group is what defines the density matrix)
+_r0 = "at('loop0.head', r)"
+_lp0 = "at('loop0.head', log2prob)"
+_pv = "at('if6.before', p)"
+_sel0 = 'DestabSel(%s, %s, %s, N)' % (_G0, _obs, _r0)
+_c06_step = [
+    # deterministic: +-obs is already a stabilizer; outcome fixed by the state, nothing changes, probability one
+    ('assert', 'implies(no_anti(%s, %s, N + %s, N), r == %s and log2prob == %s and '
+               'forall(i, 0, 2 * N, same(gs_stb[i], %s[i]) and ps_stb[i] == %s[i]) and '
+               'out[k] == ((OrdP(%s, %s, %s, N, N) - ps_obs[k]) %% 4) // 2)' % (_G0, _obs, _r0, _r0, _lp0, _G0, _P0, _sel0, _G0, _P0)),
+    # otherwise: a fair coin (unconstrained here) decides, the probability halves, and the new generator is (-1)^out * obs
+    ('assert', 'implies(not no_anti(%s, %s, N + %s, N), log2prob == %s - 1 and (out[k] == 0 or out[k] == 1))' % (_G0, _obs, _r0, _lp0)),
+    # an active stabilizer anticommutes: rank unchanged, the least such row is replaced, the other anticommuting active rows are
+    # multiplied by it with the exact product phase, the commuting ones are untouched
+    ('assert', 'implies(%s <= %s and %s < N, r == %s and same(gs_stb[%s], %s) and ps_stb[%s] == (ps_obs[k] + 2 * out[k]) %% 4 and '
+               'forall(i, %s, %s, not anti(%s[i], %s, N)) and '
+               'forall(i, %s, N, implies(i != %s, '
+               '(same(gs_stb[i], Xor(%s[i], %s[%s])) and ps_stb[i] == (%s[i] + %s[%s] + IpowSum(%s[i], %s[%s], N)) %% 4) '
+               'if anti(%s[i], %s, N) else (same(gs_stb[i], %s[i]) and ps_stb[i] == %s[i]))))'
+     % (_r0, _pv, _pv, _r0, _pv, _obs, _pv, _r0, _pv, _G0, _obs, _r0, _pv, _G0, _G0, _pv, _P0, _P0, _pv, _G0, _G0, _pv, _G0, _obs, _G0, _P0)),
+    # only standby rows anticommute (an undetermined logical operator was measured): the rank drops by one, the active
+    # stabilizers are untouched and (-1)^out * obs joins them
+    ('assert', 'implies(not (%s <= %s and %s < N), r == %s - 1 and same(gs_stb[r], %s) and ps_stb[r] == (ps_obs[k] + 2 * out[k]) %% 4 and '
+               'forall(i, %s, N, same(gs_stb[i], %s[i]) and ps_stb[i] == %s[i] and not anti(%s[i], %s, N)))'
+     % (_r0, _pv, _pv, _r0, _obs, _r0, _G0, _P0, _G0, _obs)),
+]
 CONTRACTS[U + 'stabilizer_measure'] = dict(
     params=[('gs_stb', 'int2'), ('ps_stb', 'int1'), ('gs_obs', 'int2'), ('ps_obs', 'int1'), ('r', 'int')],
     requires=['cols(gs_obs) % 2 == 0', 'inv_state(gs_stb, ps_stb, r, cols(gs_obs) // 2)', 'bits2(gs_obs)', 'len(ps_obs) == rows(gs_obs)',
@@ -403,20 +436,21 @@ CONTRACTS[U + 'stabilizer_measure'] = dict(
              'len(result[3]) == rows(gs_obs)', 'forall(kk, 0, rows(gs_obs), result[3][kk] == 0 or result[3][kk] == 1)'],
     modifies=['gs_stb', 'ps_stb'], returns=('=gs_stb', '=ps_stb', 'int', 'int1 fresh', 'real'),
     loops={0: dict(var='k', invariant=_meas_outer,
-                   hints_end=[
-                       # Hermitian phases of the active stabilizers: a product of two commuting Hermitian strings is Hermitian
-                       ('forall_lemma', [('i', '0', 'N')], 'ipow_parity', ['%s[i]' % _G0, "%s[at('if6.before', p)]" % _G0, 'N']),
-                       ('assert_from', 'gram(gs_stb, N)',
-                        ["gram(at('if6.before', gs_stb), N)", 'q == (at(\'if6.before\', p) + N if at(\'if6.before\', p) < N else at(\'if6.before\', p) - N)',
-                         's == r + N', '0 <= r < N', "at('if6.before', p) != r", 'q != r',
-                         "forall(i, 0, 2 * N, same(gs_stb[i], at('if6.before', gs_stb)[r if i == at('if6.before', p) else (at('if6.before', p) if i == r else (s if i == q else (q if i == s else i)))]))"],
-                        ["at('if6.before', p) < N", "at('if6.before', p) >= N"], 'optional'),
-                       ('assert_from', 'gram(gs_stb, N)', ["gram(at('if6.before', gs_stb), N)"],
-                        ["at('if6.before', p) < N", "at('if6.before', p) >= N"])]),
+                   hints_end=_c06_step + [
+                       # Hermitian phases of the (new) active stabilizers, from the step assertions above, the Gram structure
+                       # (stabilizers commute) and: commuting strings multiply with an even power of i
+                       ('assert_from', 'forall(a, r, N, ps_stb[a] == 0 or ps_stb[a] == 2)',
+                        [h[1] for h in _c06_step] + ['forall(a, %s, N, %s[a] == 0 or %s[a] == 2)' % (_r0, _P0, _P0), 'gram(%s, N)' % _G0,
+                                                     ('forall_lemma', [('i', '0', 'N')], 'ipow_parity', ['%s[i]' % _G0, '%s[%s]' % (_G0, _pv), 'N']),
+                                                     'herms1(ps_obs)', '0 <= k < len(ps_obs)', '0 <= %s < N + %s' % (_pv, _r0),
+                                                     'anti(%s[%s], %s, N)' % (_G0, _pv, _obs)],
+                        [], 'optional'),
+                       ('assert_from', 'forall(a, r, N, ps_stb[a] == 0 or ps_stb[a] == 2)',
+                        [_c06_step[0][1], 'forall(a, %s, N, %s[a] == 0 or %s[a] == 2)' % (_r0, _P0, _P0),
+                         'no_anti(%s, %s, N + %s, N)' % (_G0, _obs, _r0)])]),
            1: dict(var='jj', invariant=_meas_inner,
                    hints_head=[('lemma?', 'ipowsum_ext', ['ga', 'OrdGRow(%s, %s, jj - N)' % (_sel, _G0), 'gs_stb[jj - N]', 'N'])])},
-    hints={'if6.before': [_gram_after_pivot('p', 'q')],
-           'assert1': _det_hints},
+    hints=dict({'if6.before': [_gram_after_pivot('p', 'q')], 'assert1': _det_hints}, **_swap_hints(6)),
 )
 
 # ------------------------------------------------------------------ lemmas for the deterministic branch (ga == obs)
